@@ -13,7 +13,7 @@ CHECKS = {
  "C02": dict(
    technique="property-based testing with taint markers: generated html/xml programs of the safe-marking-free fragment over tainted context data and literals, validity oracle on the output (no raw < > \" '), plus a metamorphic round trip (unescape(.html rendering) == .txt rendering) on a fragment where captured values are not transformed",
    level="exploration",
-   text="A flow generator sends tainted strings and captured (safe) values through every string/list filter and operator in every argument position, through macros, call blocks, set/filter blocks, loops, includes, imports and inherited blocks of *.html/*.xml templates; free-mode programs rewritten into the fragment are mixed in. The output must contain none of < > \" '. For programs that only print/pass/store/loop over/join/re-capture captured values, unescaping the html rendering must give exactly the txt rendering (escaped exactly once). Both escaper implementations (speedups off/on).",
+   text="A flow generator sends tainted strings and captured (safe) values through every string/list filter and operator in every argument position, through the contrib filters and globals (wordwrap, truncate, pluralize, joiner, cycler ...) and the Python-style string methods, through macros, call blocks, set/filter blocks, loops, includes, imports and inherited blocks of *.html/*.xml templates; free-mode programs rewritten into the fragment are mixed in. The output must contain none of < > \" '. For programs that only print/pass/store/loop over/join/re-capture captured values, unescaping the html rendering must give exactly the txt rendering (escaped exactly once). Both escaper implementations (speedups off/on).",
    note="Raw & is not asserted (transforming an already escaped capture legitimately yields &LT; or cut-off entities). Mixed-extension includes are outside the domain.",
    design="3/C02"),
  "C03": dict(
@@ -25,11 +25,11 @@ CHECKS = {
  "C04": dict(
    technique="property-based testing: metamorphic relation between an expression over literals and every variant with a subset of its literal leaves hoisted into context variables",
    level="exploration",
-   text="Generated expressions over the literal syntax (boundary integers, floats, strings, and/or with falsy/truthy operands, comparison chains, in, ~, lists, tuples, maps, negated literals, filters/functions with literal keyword arguments) are rendered as written and with every (sampled beyond 6 leaves) subset of literal leaves replaced by variables bound to the engine's own value for that literal; text and error-ness must agree. `{% if false %}{{ E }}{% endif %}` must load and render empty.",
+   text="Generated expressions over the literal syntax (boundary integers, floats, strings, left-leaning chains of one operator over operands where regrouping shows (floats at 2^53, integers at the 64/128-bit boundaries), and/or with falsy/truthy operands, comparison chains, in, ~, lists, tuples, maps, negated literals, filters/functions with literal keyword arguments) are rendered as written and with every (sampled beyond 6 leaves) subset of literal leaves replaced by variables bound to the engine's own value for that literal; text and error-ness must agree. `{% if false %}{{ E }}{% endif %}` must load and render empty.",
    note="Lazy sequence repetitions with astronomically large counts are excluded from the generator (printing them never ends; a hang is not this property's subject).",
    design="3/C04"),
  "C05": dict(
-   technique="property-based testing with path enumeration: generated skeletons of nested scoped constructs with break/continue at every accepted position, every control-flow path driven through context booleans and list lengths, state-balance invariant observed through the verif_hooks monitor plus sentinel/scope/escape probes in the output",
+   technique="property-based testing with path enumeration: generated skeletons of nested scoped constructs with break/continue at every accepted position and recursive loops that call themselves in five forms (bare, assigned, filtered, with lazy arguments of unknown length), every control-flow path driven through context booleans and list lengths, state-balance invariant observed through the verif_hooks monitor plus sentinel/scope/escape probes in the output",
    level="exploration",
    text="For each generated program all assignments of its condition booleans and loop lengths (up to 160, else sampled) are rendered in .txt and .html; per path the feature-guarded balance monitor (frame depth, capture depth, auto-escape stack and operand stack equal at entry and normal exit of every instruction-stream evaluation; no foreign frame/capture popped) must stay silent, markers written after every top-level construct must reach the output in order, the escape mode and outer variables must be as before, inner assignments of isolating constructs must be gone, and so must whatever an included template assigned while it ran inside a construct with a scope of its own (also a block that assigns nothing itself).",
    note="Paths are complete only for programs with at most 160 assignments. The reference-interpreter comparison of whole outputs is part of C03.",
@@ -55,7 +55,7 @@ CHECKS = {
  "C09": dict(
    technique="property-based testing: complete enumeration of the quantifier's box plus proptest-generated boundary cases, differential against a Python slice.indices model",
    level="exploration",
-   text="Every (kind, len, start, stop, step) of the stated box is enumerated (8 value kinds x len 0..=6 x 20 x 20 x 10 bounds, literal and variable form) together with i64-boundary and beyond-i64 rows and random cases; results (kind and items) are compared with an independent model of Python's slicing and subscripting, and every slice result is sliced, subscripted from the end and measured again against the same model.",
+   text="Every (kind, len, start, stop, step) of the stated box is enumerated (8 value kinds x len 0..=6 x 20 x 20 x 10 bounds, literal and variable form) together with i64-boundary and beyond-i64 rows and random cases; results (kind and items) are compared with an independent model of Python's slicing and subscripting, and every slice result is sliced, subscripted from the end and measured again against the same model; the rows with a bound at or beyond the i64 boundaries also run in isolated worker processes, so that an abort is attributed to its case.",
    note="Trusts model/pyslice.rs (unit tested on CPython examples, cross-checked with python3 in the thorough tier). Out-of-range subscripts are expected to be undefined. Exhaustive only inside the stated box.",
    design="3/C09"),
  "C10": dict(
@@ -79,19 +79,19 @@ CHECKS = {
  "C13": dict(
    technique="property-based testing: threshold oracle by bisection plus exhaustive budgets around the threshold and at the integer extremes, history invariants on fuel_levels, metamorphic additivity of fuel cost",
    level="exploration",
-   text="For generated programs (macros, call blocks, includes, imports, recursive loops, inheritance, failing programs) the success threshold T is bisected and every budget in [T-40, T+16], sampled budgets below and the extremes up to u64::MAX must give exactly the unlimited outcome (>= T) or an out-of-fuel error (< T); fuel_levels must add up to the budget, equal T-1 and be repeatable; fuel cost must be additive over sequences and linear in the number of nested evaluations.",
+   text="For generated programs (macros, call blocks, includes, imports, recursive loops, inheritance, failing programs) (also programs in which a host callback re-enters the engine through State::render_block or Value::call) the success threshold T is bisected and every budget in [T-40, T+16], sampled budgets below and the extremes up to u64::MAX must give exactly the unlimited outcome (>= T) or an out-of-fuel error (< T); fuel_levels must add up to the budget, equal T-1 and be repeatable; fuel cost must be additive over sequences and linear in the number of nested evaluations.",
    note="A budget of 400000 stands in for 'no limit' during bisection; more expensive programs are skipped.",
    design="3/C13"),
  "C14": dict(
    technique="property-based testing: generated failing templates (structured programs with failing pieces, character-level mutations, truncations), validity oracle on every located error of the cause chain, metamorphic relation under vertical/horizontal padding, enumerated planted errors with known lines",
    level="exploration",
-   text="For every error of the cause chain that names a template the line must lie inside that template's source and a reported range must be a valid slice (bounds, char boundaries) on the reported line; inserting N lines above / M characters in front must shift line/range by exactly that and change nothing else; all formatting forms must complete. A division by zero planted in 29 expression positions and 16 failing statements that end their line (x surroundings x offsets, enumerated) must be reported on its own line.",
+   text="For every error of the cause chain that names a template the line must lie inside that template's source and a reported range must be a valid slice (bounds, char boundaries) on the reported line; inserting N lines above / M characters in front must shift line/range by exactly that and change nothing else; all formatting forms must complete. A division by zero planted in 29 expression positions and 16 failing statements that end their line (x surroundings x offsets, enumerated) must be reported on its own line; so must six prints that fail because of the escape mode of their template (JSON, a custom format).",
    note="Vertical shifts are only asserted while the padded template stays within 65 535 lines (the property's domain).",
    design="3/C14"),
  "C15": dict(
    technique="stateful (model-based) property testing: generated operation histories interpreted against the real Environment and an explicit contents model, compared after every step with a freshly built environment; loader-call log as history invariant; concurrent renders sampled",
    level="exploration",
-   text="Histories over add/replace/remove templates in both stores (incl. sources that fail to compile), clear_templates, set_loader over a mutable shared store and edits of it, add/remove filter/test/global/function, clone, renders and compile_expression are applied step by step; after every step every template name must render exactly as in a fresh environment built from the model's contents, renders must be repeatable, the loader must not be asked for stored names, clones must keep their contents, and the final environment renders identically from up to 8 threads.",
+   text="Histories over add/replace/remove templates in both stores (incl. sources that fail to compile), clear_templates, set_loader over a mutable shared store and edits of it, add/remove filter/test/global/function, clone, renders and compile_expression are applied step by step; after every step every template name must render exactly as in a fresh environment built from the model's contents, renders must be repeatable, the loader must not be asked for stored names, clones must keep their contents, and the final environment renders identically from up to 8 threads. A macro, a module macro or a namespace taken out of a finished render is used again on the thread that made it, on a fresh thread and on the calling thread: same outcome everywhere (144 cases, complete).",
    note="Settings that only affect later-loaded templates are outside the histories. Thread interleavings are sampled.",
    design="3/C15"),
  "C16": dict(
@@ -119,7 +119,7 @@ CHECKS = {
    note="Assumes the write sequence of a render is deterministic (verified per case against render()).",
    design="3/C19"),
  "C20": dict(
-   technique="schedule enumeration as property-based testing: every placement of up to 3 reload requests at the lock-granularity yield points of up to 3 acquire_env calls (through feature-guarded hooks) x option combinations, history invariant over a logical clock; proptest for longer schedules; real-thread stress as smoke test",
+   technique="schedule enumeration as property-based testing: every placement of up to 3 reload requests at the lock-granularity yield points of up to 3 acquire_env calls (through feature-guarded hooks) x option combinations, history invariant over a logical clock; proptest for longer schedules; real threads: a stress run as smoke test and 2-4 acquirers queued behind a held guard with 0-2 pending requests (at most one rebuild per request under any interleaving)",
    level="exploration",
    text="All schedules of up to 3 acquires and up to 3 requests (placed before the acquire, after the cache lock, between check and flag reset, between reset and creator, inside the creator, after the rebuild, before return, under the held guard) x fast reload x freshness callback x failing creator (returning an error, or panicking with the panic contained) are executed against the real AutoReloader; for every request that returned at logical time t the first successful acquire started after t must return an environment whose creator started (or whose cache was cleared) after t; the environment must not change under a held guard; no rebuild without a request.",
    note="Interleavings are produced deterministically on one thread through the yield-point callback (the notifier lock is not held at those points); preemption inside a critical section is not modelled. The thread stress part only samples.",
